@@ -112,6 +112,7 @@ def handle (l : Line) : Verdict :=
       let raw : RawAttr := ⟨be16 t0 t1, v⟩
       match fromRaw k raw with
       | .ok val =>
+        if v.length > 65535 then exact s!"attr dec {k.name} ok big" l.obs "ok big" else
         let r2 := val.toRaw
         let stable := match fromRaw k r2 with
           | .ok v2 => if v2 = val then 1 else 0
